@@ -59,6 +59,7 @@ properties! {
     "C09" => c09,
     "C10" => c10,
     "C15" => c15,
+    "C16" => c16,
     "C17" => c17,
     "C18" => c18,
 }
